@@ -203,6 +203,24 @@ func (r *round) runActor(a actor, base *common.FakeConsensus) (string, []c10op) 
 		}
 		mon.Store.Add(m)
 	}
+	// PRIVATE ping view (round 8b): which members THIS member's monitor holds a valid ping metric for is a function
+	// of the pair (member, peer) only — every member sees another subset (none / expired / invalid / valid), self
+	// included. It is not part of the agreed peerset, the model never sees it (sem_candidates_agreed_only), so the
+	// unchanged code must behave as if it were not there; a closest-peer test that consults the local monitor
+	// (seeded change C10g) makes members that agree on the peerset disagree on who is closest.
+	for _, m := range r.members {
+		pm := &api.Metric{Name: "ping", Peer: common.PeerN(m), Valid: true, Value: "",
+			Expire: now.Add(time.Hour).UnixNano(), ReceivedAt: now.UnixNano()}
+		switch (a.id*7 + m*13 + a.id*m + len(r.members)) % 5 {
+		case 0:
+			continue
+		case 1:
+			pm.Expire = now.Add(-time.Hour).UnixNano()
+		case 2:
+			pm.Valid = false
+		}
+		mon.Store.Add(pm)
+	}
 	var alloc ipfscluster.PinAllocator = ascendalloc.NewAllocator()
 	if r.desc {
 		alloc = descendalloc.NewAllocator()
